@@ -43,6 +43,18 @@ def gen_batch(rng, tier, nreq=None, kinds=None):
     for i in range(k):
         kind = rng.choice(kinds or KINDS)
         reqs.append(gen_request(rng, f'r{i}', kind, n, reqs))
+    # at least two BIDIRECTIONAL requests leaving the same source transceiver (different destination / mode / power): the z-a
+    # direction of each must be reported from its own propagation
+    ok = [i for i, r in enumerate(reqs) if r['kind'] in ('fixed', 'auto', 'hard', 'dense', 'saturating', 'multislot', 'sparse')]
+    if len(ok) >= 2 and rng.random() < 0.4:
+        i, j = rng.sample(ok, 2)
+        a, b = reqs[i], reqs[j]
+        a['bidir'] = b['bidir'] = True
+        b['src'] = a['src']
+        if b['dst'] == b['src'] or (n >= 3 and rng.random() < 0.6):
+            b['dst'] = rng.choice([x for x in range(n) if x != b['src'] and (x != a['dst'] or n < 3)])
+        if all(a[k_] == b[k_] for k_ in ('dst', 'type', 'mode', 'spacing', 'power')):
+            b['power'] = 5e-4 if a['power'] != 5e-4 else 2e-3
     return {'n': n, 'edges': elist, 'lib': lib, 'requests': reqs}
 
 
@@ -90,6 +102,8 @@ def gen_request(rng, rid, kind, n, earlier):
             b = rng.choice(base)
             r.update({k: b[k] for k in ('src', 'dst', 'type', 'mode', 'spacing', 'power', 'include', 'strict')})
             r['bidir'] = b['bidir'] if rng.random() < 0.7 else not b['bidir']
+    elif kind == 'sparse':     # fewer carriers than nli_params.computed_number_of_channels
+        r['mode'], r['spacing'], r['nch'] = 'm100', 50e9, rng.choice([2, 2, 3, 4])
     elif kind == 'dense':
         r['type'], r['mode'], r['spacing'] = 'Twide', 'w100', 50e9
     elif kind == 'saturating':
@@ -134,9 +148,11 @@ def build(case):
 
 
 def req_doc(r):
-    return nets_g.request_doc(r['id'], f'trx N{r["src"]}', f'trx N{r["dst"]}', r['type'], r['mode'], r['spacing'],
+    src = r.get('src_uid') or f'trx N{r["src"]}'
+    dst = r.get('dst_uid') or f'trx N{r["dst"]}'
+    return nets_g.request_doc(r['id'], src, dst, r['type'], r['mode'], r['spacing'],
                               bidir=r['bidir'], path_bandwidth=r['bw'], power=r['power'], include=r['include'],
-                              strict=r['strict'], nm=r['nm'])
+                              strict=r['strict'], nm=r['nm'], nch=r.get('nch'))
 
 
 def run_planning(ctx, reqs):
